@@ -357,6 +357,8 @@ def run(ctx, prop):
     for gname in XR.REGISTRY[prop]["groups"]:
         g = XR.GROUPS[gname]
         recs = {r.name: r for r in g["recs"]}
+        py2lean.EXTERN.clear()
+        py2lean.EXTERN.update({r.name: r.extern for r in g["recs"] if r.extern})
         suite = SUITES[gname]()
         done, jobs = {}, []
         for fn in g["fns"]:
